@@ -8,3 +8,6 @@ mod c13;
 
 #[path = "source_c05.rs"]
 mod c05;
+
+#[path = "source_sm.rs"]
+mod sm;
